@@ -35,6 +35,10 @@ pub struct C18Case {
     /// (index into FAULT_ERRNOS); the run then uses one worker thread so that k is reproducible
     #[serde(default)]
     pub fault: Option<(u8, u8)>,
+    /// DIR is spelled `shelf/../dups` where `shelf` (in the working directory) is a symlink to a
+    /// directory elsewhere: the OS resolves `..` against the link's target, not against its name
+    #[serde(default)]
+    pub dir_via_link: bool,
 }
 
 const FAULT_ERRNOS: [&str; 3] = ["EIO", "ENOSPC", "EPERM"];
@@ -59,14 +63,14 @@ fn case_strategy() -> BoxedStrategy<C18Case> {
         0u16..u16::MAX,
         prop_oneof![5 => Just(Pre::CollidingFile), 2 => Just(Pre::DirAtTarget), 2 => Just(Pre::FileAtParent), 1 => Just(Pre::DanglingLink)],
     );
-    (dcase_strategy(profile()), proptest::collection::vec(pre, 0..3), prop::bool::weighted(0.3), prop::option::weighted(0.35, (1u8..25, 0u8..3)))
-        .prop_map(|(mut d, pre, relative_dir, fault)| {
+    (dcase_strategy(profile()), proptest::collection::vec(pre, 0..3), prop::bool::weighted(0.3), prop::option::weighted(0.35, (1u8..25, 0u8..3)), prop::bool::weighted(0.12))
+        .prop_map(|(mut d, pre, relative_dir, fault, dir_via_link)| {
             for p in d.dopts.priority.iter_mut() {
                 if *p % 12 == 6 || *p % 12 == 7 {
                     *p = 0;
                 }
             }
-            C18Case { d, pre, relative_dir, fault }
+            C18Case { d, pre, relative_dir, fault, dir_via_link }
         })
         .boxed()
 }
@@ -80,7 +84,15 @@ fn dest_of(target: &[u8], src: &[u8]) -> Vec<u8> {
 pub fn run_case(c: &C18Case, n: u64) -> Verdict {
     let d = &c.d;
     let g = build_and_group("c18", d, n, Fs::Tmpfs);
-    let target = target_dir(&g.cd, d);
+    let target = if c.dir_via_link {
+        // <case>/store/archive is where `t/shelf` points; `shelf/../dups` therefore is <case>/store/dups
+        let store = g.cd.base.join("store");
+        let _ = std::fs::create_dir_all(store.join("archive"));
+        let _ = std::os::unix::fs::symlink(store.join("archive"), g.cd.tree().join("shelf"));
+        store.join("dups")
+    } else {
+        target_dir(&g.cd, d)
+    };
     let _ = std::fs::create_dir_all(&target);
     let v = judge(c, &g, &target);
     if target.starts_with("/var/tmp/fcvw") {
@@ -155,7 +167,9 @@ fn judge(c: &C18Case, g: &Grouped, target: &PathBuf) -> Verdict {
     let before = Snapshot::take(&[&tree, target]);
     let mut dc = d.clone();
     dc.op = Op::Move;
-    let dir_arg: PathBuf = if c.relative_dir && d.move_target < 2 {
+    let dir_arg: PathBuf = if c.dir_via_link {
+        PathBuf::from("shelf/../dups")
+    } else if c.relative_dir && d.move_target < 2 {
         // relative to the working directory (= tree root)
         match d.move_target {
             1 => PathBuf::from(ROOT_NAMES[0]).join("moved_here"),
@@ -178,7 +192,7 @@ fn judge(c: &C18Case, g: &Grouped, target: &PathBuf) -> Verdict {
     let out = run.run();
     let injected = c.fault.is_some() && std::fs::read_to_string(g.cd.base.join("shim.log")).map(|l| l.contains("INJECTED")).unwrap_or(false);
     let after = Snapshot::take(&[&tree, target]);
-    let sig = vec![format!("target-{}", d.move_target), if c.relative_dir { "relative-dir".to_string() } else { "absolute-dir".to_string() }];
+    let sig = vec![if c.dir_via_link { "target-via-symlink-dotdot".to_string() } else { format!("target-{}", d.move_target) }, if c.relative_dir { "relative-dir".to_string() } else { "absolute-dir".to_string() }];
     let dd = diff(&before, &after, false);
     let fail = |clause: &str, detail: String| Verdict::Fail {
         clause: clause.into(),
@@ -284,7 +298,7 @@ pub fn check(tier: Tier) -> i32 {
     cleanup_process_scratch();
     ctx.finish(
         "exploration",
-        "proptest-generated scenarios (hostile file/dir names, hard links, priorities, -n, isolate) x `move DIR` with DIR outside the tree, inside the scanned tree or on the other device (tmpfs -> ext4: rename fails with EXDEV, copy fallback), absolute or cwd-relative, pre-populated with obstacles derived from a dry run: a colliding regular file, a directory at the destination, a file where a parent directory is needed, a dangling symlink; in a third of the cases the k-th (k = 1..24) mutating libc call on the tree / DIR is made to fail with EIO, ENOSPC or EPERM by the LD_PRELOAD interposer (single worker thread). Oracle (inventories before/after): everything that existed under DIR is untouched; every vanished source has its bytes at DIR/<absolute source path>, which did not exist before; no file altered in place; #new regular files under DIR == #moved; intended-but-unmoved sources are untouched and a warning is logged; without obstacles and without an injected failure every intended file is moved; after an injected failure the only relaxation is that an incomplete copy may remain under DIR. Non-trivial = an obstacle was in place, a failure was actually injected, or the cross-device copy fallback moved a file.",
+        "proptest-generated scenarios (hostile file/dir names, hard links, priorities, -n, isolate) x `move DIR` with DIR outside the tree, inside the scanned tree or on the other device (tmpfs -> ext4: rename fails with EXDEV, copy fallback), absolute or cwd-relative or spelled `shelf/../dups` through a symlink in the working directory, pre-populated with obstacles derived from a dry run: a colliding regular file, a directory at the destination, a file where a parent directory is needed, a dangling symlink; in a third of the cases the k-th (k = 1..24) mutating libc call on the tree / DIR is made to fail with EIO, ENOSPC or EPERM by the LD_PRELOAD interposer (single worker thread). Oracle (inventories before/after): everything that existed under DIR is untouched; every vanished source has its bytes at DIR/<absolute source path>, which did not exist before; no file altered in place; #new regular files under DIR == #moved; intended-but-unmoved sources are untouched and a warning is logged; without obstacles and without an injected failure every intended file is moved; after an injected failure the only relaxation is that an incomplete copy may remain under DIR. Non-trivial = an obstacle was in place, a failure was actually injected, or the cross-device copy fallback moved a file.",
         &["intention of the command is learnt from a dry run of the same command (C11 checks dry-run fidelity)", "failures are injected at libc level, one per run; every position of every call sequence is enumerated by C05"],
     )
 }
